@@ -7,6 +7,7 @@ package leader
 // (HealthChecker, Logger, Metrics, mock KeyValue functions, uuid.SetRand).
 
 import (
+	"runtime"
 	"context"
 	"encoding/json"
 	"errors"
@@ -603,6 +604,62 @@ func TestKnown_C07_LeftoverHeartbeatLoopDeposesNextTerm(t *testing.T) {
 }
 
 var kvSlow func(k *natsmock.MockKeyValue)
+
+// C07.claim_published_last@becomeLeader: the claim (isLeader) was stored before the revision of the write that
+// backs it. handleWatchEvent reads both without the mutex: a late notification of the previous owner's record that
+// lands between the two stores passes "names another instance and is newer than my revision" and deposes the leader
+// that has just been elected. The window is a few instructions wide, so the replay is statistical: a spinner delivers
+// the stale notification while elections are started one after the other.
+func TestKnown_C07_StaleEventBetweenClaimAndRevision(t *testing.T) {
+	stale, _ := json.Marshal(leadershipPayload{ID: "old-leader", Token: "t-old", Priority: 0})
+	hits := 0
+	const trials = 6000
+	for i := 0; i < trials && hits == 0; i++ {
+		nc := natsmock.NewMockConn()
+		cfg := kCfg()
+		e, kv := kElectionOn(t, nc, cfg)
+		// revisions 1..3 belonged to the previous owner; its record is gone by now
+		for r := 0; r < 3; r++ {
+			if r == 0 {
+				_, _ = kv.Create("g", stale)
+			} else {
+				_, _ = kv.Update("g", stale, uint64(r))
+			}
+		}
+		_ = kv.Delete("g")
+		var demoted atomic.Int32
+		e.OnDemote(func() { demoted.Add(1) })
+		stop := make(chan struct{})
+		var wg sync.WaitGroup
+		wg.Add(1)
+		go func() {
+			defer wg.Done()
+			for {
+				select {
+				case <-stop:
+					return
+				default:
+					e.handleWatchEvent(kEntry{v: stale, rev: 3}) // late notification of the old owner's last write
+				}
+			}
+		}()
+		_ = e.Start(context.Background())
+		deadline := time.Now().Add(200 * time.Millisecond)
+		for !e.IsLeader() && demoted.Load() == 0 && time.Now().Before(deadline) {
+			runtime.Gosched()
+		}
+		time.Sleep(200 * time.Microsecond)
+		close(stop)
+		wg.Wait()
+		if demoted.Load() > 0 {
+			hits++
+		}
+		_ = e.Stop()
+	}
+	if hits > 0 {
+		t.Fatalf("VIOLATION-REPRODUCED: a freshly elected leader (own write at revision 4) was deposed by a late notification of revision 3 that landed between its claim and its revision store")
+	}
+}
 
 // storepolicy(leaderID).leader_consistent_id: follower-side code overwrites leaderID outside the
 // mutex after an unlocked IsLeader() check; a promotion that lands in between leaves a leader
